@@ -306,6 +306,13 @@ def run(ctx):
         if r["post"] and r["post"][0][1]:
             v = r["post"][0][1][0]
             other = v[:-1] + ("2" if v.endswith("1") else "1")
+            if other not in POOL:
+                # no second candidate for this slot: claim a variable of the same key that the registry does not hold
+                held = {x for _, vs in r["post"] for x in vs}
+                cands = [x for x in sorted(POOL) if POOL[x][0] == POOL[v][0] and x not in held]
+                if not cands:
+                    return False
+                other = cands[0]
             r["post"][0][1][0] = other
             r["gm"] = []
             return True
